@@ -1,3 +1,3 @@
--- Model driver for property C16 (stub until the property's model exists).
-import GojaModel.Base.Proto
-def main : IO Unit := GojaModel.Proto.lineMap (fun _ => "unimplemented")
+-- Model driver for property C16.
+import GojaModel.C16.Driver
+def main : IO Unit := GojaModel.C16.Driver.main
